@@ -23,13 +23,17 @@ type c09Fail struct {
 	Pos    int  `json:"pos"`
 	Status int  `json:"status"`        // 127 = unknown command; -13 = external process killed by SIGPIPE
 	Ext    bool `json:"ext,omitempty"` // the status comes from an external process (sh -c 'exit N') instead of the builtin exit
+	// Form: the syntactic shape of the failing command: "" an or-list, "subshell", "brace", "if", "negation", "dbracket"
+	// (the last two can only fail with status 1)
+	Form string `json:"form,omitempty"`
 }
 
 type c09Case struct {
 	Shape string    `json:"shape"`
 	NCmds int       `json:"ncmds"`
 	Fails []c09Fail `json:"fails"`
-	Mode  string    `json:"mode"` // plain | quiet | json | force
+	Mode  string    `json:"mode"`           // plain | quiet | json | force
+	Warm  bool      `json:"warm,omitempty"` // an earlier, successful run has cached every task; then the failing tasks' inputs change
 }
 
 var c09Names = []string{"alphatask", "betatask", "gammatask"}
@@ -99,6 +103,23 @@ func (c c09Case) text() string {
 			for _, f := range c.Fails {
 				if f.Task == t && f.Pos == k {
 					failed = true
+					switch f.Form {
+					case "subshell":
+						fmt.Fprintf(&sb, "    (test ! -e \"$VCTL/on\" || exit %d)\n", f.Status)
+						continue
+					case "brace":
+						fmt.Fprintf(&sb, "    { test ! -e \"$VCTL/on\" || exit %d; }\n", f.Status)
+						continue
+					case "if":
+						fmt.Fprintf(&sb, "    if test -e \"$VCTL/on\"; then exit %d; fi\n", f.Status)
+						continue
+					case "negation":
+						sb.WriteString("    ! test -e \"$VCTL/on\"\n")
+						continue
+					case "dbracket":
+						sb.WriteString("    [[ ! -e \"$VCTL/on\" ]]\n")
+						continue
+					}
 					if f.Status == 127 {
 						fmt.Fprintf(&sb, "    test ! -e \"$VCTL/on\" || nosuchcommand_verif_%d\n", k)
 					} else if f.Status == -13 {
@@ -148,14 +169,29 @@ func c09Cases(tier string) []c09Case {
 				for _, f := range singles {
 					for _, st := range statuses {
 						f.Status = st
-						out = append(out, c09Case{sh.Name, n, []c09Fail{f}, mode})
+						out = append(out, c09Case{Shape: sh.Name, NCmds: n, Fails: []c09Fail{f}, Mode: mode})
 					}
 					// statuses of external processes, incl. 128+signal values and a real death by signal
 					for _, st := range extStatuses {
 						g := f
 						g.Status, g.Ext = st, true
-						out = append(out, c09Case{sh.Name, n, []c09Fail{g}, mode})
+						out = append(out, c09Case{Shape: sh.Name, NCmds: n, Fails: []c09Fail{g}, Mode: mode})
 					}
+				}
+				// the failing command in other syntactic shapes
+				for _, f := range singles {
+					for _, form := range []string{"subshell", "brace", "if", "negation", "dbracket"} {
+						g := f
+						g.Form, g.Status = form, 3
+						if form == "negation" || form == "dbracket" {
+							g.Status = 1
+						}
+						out = append(out, c09Case{Shape: sh.Name, NCmds: n, Fails: []c09Fail{g}, Mode: mode})
+					}
+				}
+				// everything before the failing task is up to date and skipped
+				if mode != "force" && (sh.Name == "diamond-leg" || sh.Name == "long-chain" || sh.Name == "chain") {
+					out = append(out, c09Case{Shape: sh.Name, NCmds: n, Fails: []c09Fail{{Task: sh.NTasks - 1, Pos: n, Status: 1}}, Mode: mode, Warm: true})
 				}
 				// two failing commands (same or different tasks)
 				for i := range singles {
@@ -165,11 +201,11 @@ func c09Cases(tier string) []c09Case {
 						}
 						a, b := singles[i], singles[j]
 						a.Status, b.Status = 3, 1
-						out = append(out, c09Case{sh.Name, n, []c09Fail{a, b}, mode})
+						out = append(out, c09Case{Shape: sh.Name, NCmds: n, Fails: []c09Fail{a, b}, Mode: mode})
 						// statuses whose sum is a multiple of 256
 						for _, pr := range [][2]int{{128, 128}, {255, 1}} {
 							a.Status, b.Status = pr[0], pr[1]
-							out = append(out, c09Case{sh.Name, n, []c09Fail{a, b}, mode})
+							out = append(out, c09Case{Shape: sh.Name, NCmds: n, Fails: []c09Fail{a, b}, Mode: mode})
 						}
 					}
 				}
@@ -206,6 +242,17 @@ func c09Run(root string, c c09Case) (res []c09Obs, outcome string) {
 		args = append(args, "--json")
 	case "force":
 		args = append(args, "--force")
+	}
+	if c.Warm {
+		os.Remove(filepath.Join(ctl, "on"))
+		if w := bin.Run(proj, home, env, sh.Request...); w.Exit != 0 || w.Died() {
+			return []c09Obs{{"second-run-fails", fmt.Sprintf("a run without any failing command exits %d: %s", w.Exit, firstLines(w.Stderr, 3))}}, "warm-run-error"
+		}
+		for _, f := range c.Fails {
+			t.File("home/w/proj/"+sh.taskName(f.Task)+".txt", "v1\n")
+		}
+		t.File("ctl/on", "")
+		os.Remove(vlog)
 	}
 	o1 := bin.Run(proj, home, env, args...)
 	log1, _ := os.ReadFile(vlog)
@@ -299,7 +346,7 @@ func c09Check(tier string) int {
 	run.Set("evaluations", invocations)
 	run.Set("distinct_nontrivial", nontriv)
 	run.Set("outcomes", outcomes)
-	run.Set("rule", "states = (program shape in {single, independent, chain, diamond leg} x 1..3 [thorough 4] commands per task x failing command set (every single (task, position) x status in {1,2,127 unknown command,255} [thorough 8 statuses], every pair) x mode in {plain, --quiet, --json, --force}); transitions = invocations of the built spok binary (failing run, then an unforced run with the failure switched off); non-trivial = a failing command was really executed")
+	run.Set("rule", "states = (program shape in {single, independent, chain, diamond leg} x 1..3 [thorough 4] commands per task x failing command set (every single (task, position) x status in {1,2,127 unknown command,255} [thorough 8 statuses], every pair; the failing command also as a subshell, a brace group, an if statement, a negation and a [[ ]] test; and, for the chains and the diamond, after a successful run that left every other task up to date) x mode in {plain, --quiet, --json, --force}); transitions = invocations of the built spok binary (failing run, then an unforced run with the failure switched off); non-trivial = a failing command was really executed")
 	run.Assumes("task commands log to a harness-owned file so that execution is observed independently of spok's report", "spok runs as uid nobody with cwd inside a sandbox under /dev/shm and HOME set to the sandbox")
 	return run.Finish()
 }
